@@ -48,12 +48,15 @@ struct Case {
     entry: Entry,
     /// named fields are raw identifiers
     raw: bool,
-    /// the trait sits in a SECOND stacked `#[derive_ex(..)]` list
-    stacked: bool,
+    /// the trait sits in a SECOND stacked list: 1 `#[derive_ex(..)]`, 2 `#[derive_ex::derive_ex(..)]`,
+    /// 3 `#[::derive_ex::derive_ex(..)]` (the path-qualified ones under the attribute entry only)
+    stacked: usize,
     /// 0 plain; 1 the definition comes out of a `macro_rules!` macro, the field type being passed in as an `ident`
     /// fragment; 2 declared where-clause `where Option<Self>: Keep` (Keep is implemented for Option<X> only);
     /// 3 an additional last field of type `Tag<Self>`; 4 (generic flavour) a lifetime parameter named `'a` and an
-    /// additional last field `Tag<&'a T>`
+    /// additional last field `Tag<&'a T>`; 5 a const parameter declared before the type parameter; 6 `X<const K: usize>`
+    /// whose fields have the type `FmN<K>` (operators for K = 2 only: the field-type bound is indispensable);
+    /// 7 (generic flavour) `X<T: Scale<Self>>` - `Self` in an inline parameter bound
     extra: usize,
 }
 
@@ -74,18 +77,21 @@ fn gen(ch: &mut Ch, thorough: bool) -> Option<Case> {
     let flavour = *ch.of(&[Flavour::Fm, Flavour::GenericFm, Flavour::WrapI8, Flavour::AssocFm]);
     let entry = *ch.of(&Entry::BOTH);
     let raw = ch.flag();
-    let stacked = ch.flag();
-    let extra = ch.pick(6);
-    if extra != 0 && (raw || stacked || flavour != (if extra >= 4 { Flavour::GenericFm } else { Flavour::Fm }) || body.n == 0 || entry == Entry::Derive && !thorough) {
+    let stacked = ch.pick(4);
+    let extra = ch.pick(8);
+    if stacked >= 2 && entry == Entry::Derive {
+        return None;
+    }
+    if extra != 0 && (raw || stacked != 0 || flavour != (if matches!(extra, 4 | 5 | 7) { Flavour::GenericFm } else { Flavour::Fm }) || body.n == 0 || entry == Entry::Derive && !thorough) {
         return None;
     }
     if !thorough && extra != 0 && !(body.n == 2) {
         return None;
     }
-    if raw && !(body.kind == SKind::Named && body.n == 2 && flavour == Flavour::Fm && entry == Entry::Attr && !stacked) {
+    if raw && !(body.kind == SKind::Named && body.n == 2 && flavour == Flavour::Fm && entry == Entry::Attr && stacked == 0) {
         return None;
     }
-    if stacked && !(body.n == 2 && body.kind == SKind::Tuple && flavour == Flavour::Fm) {
+    if stacked != 0 && !(body.n == 2 && body.kind == SKind::Tuple && flavour == Flavour::Fm) {
         return None;
     }
     if flavour != Flavour::Fm && body.n == 0 {
@@ -147,7 +153,9 @@ fn build(c: &Case, tier: &str) -> XCase {
 fn build_inner(c: &Case, tier: &str) -> XCase {
     let sh = Shape { is_enum: false, variants: vec![c.body.clone()] };
     let n = c.body.n;
+    let is_n = c.extra == 6;
     let fty = match c.flavour {
+        Flavour::Fm if is_n => "::dxrt::FmN<K>",
         Flavour::Fm => "Fm",
         Flavour::GenericFm => "T",
         Flavour::WrapI8 => "::core::num::Wrapping<i8>",
@@ -155,7 +163,7 @@ fn build_inner(c: &Case, tier: &str) -> XCase {
     };
     let ty = |_: usize, _: usize| fty.to_string();
     let noattrs = |_: usize, _: usize| Vec::new();
-    let mut item = sh.item(match c.flavour { Flavour::GenericFm if c.extra == 4 => "<'a, T>", Flavour::GenericFm if c.extra == 5 => "<const K: usize, T>", Flavour::GenericFm => "<T>", Flavour::AssocFm => "<T: HasA>", _ => "" }, &ty, &noattrs);
+    let mut item = sh.item(match c.flavour { Flavour::GenericFm if c.extra == 4 => "<'a, T>", Flavour::GenericFm if c.extra == 5 => "<const K: usize, T>", Flavour::GenericFm if c.extra == 7 => "<T: Scale<Self>>", Flavour::GenericFm => "<T>", Flavour::AssocFm => "<T: HasA>", Flavour::Fm if is_n => "<const K: usize>", _ => "" }, &ty, &noattrs);
     // an additional last field that takes part in every operator without logging (Tag implements all forms)
     let tag_ty = match c.extra { 3 => Some("::dxrt::probe::Tag<Self>"), 4 => Some("::dxrt::probe::Tag<&'a T>"), 5 => Some("::dxrt::probe::Tag<[u8; K]>"), _ => None };
     if let (Some(t), Body::Struct(f)) = (tag_ty, &mut item.body) {
@@ -176,12 +184,12 @@ fn build_inner(c: &Case, tier: &str) -> XCase {
         item.where_ = "where Option<Self>: Keep".into();
     }
     let tr = c.op.trait_name();
-    let lists = if c.stacked { format!("#[derive_ex(Clone)]\n#[derive_ex({tr})]") } else { format!("#[derive_ex({tr})]") };
+    let lists = match c.stacked { 0 => format!("#[derive_ex({tr})]"), 1 => format!("#[derive_ex(Clone)]\n#[derive_ex({tr})]"), 2 => format!("#[derive_ex(Clone)]\n#[derive_ex::derive_ex({tr})]"), _ => format!("#[derive_ex(Clone)]\n#[::derive_ex::derive_ex({tr})]") };
     let head = match c.entry {
         Entry::Attr => lists,
         Entry::Derive => format!("#[derive(Ex)]\n{lists}"),
     };
-    let selfty = if c.extra == 4 { "X<'static, Fm>" } else if c.extra == 5 { "X<3, Fm>" } else if matches!(c.flavour, Flavour::GenericFm | Flavour::AssocFm) { "X<Fm>" } else { "X" };
+    let selfty = if c.extra == 4 { "X<'static, Fm>" } else if c.extra == 5 { "X<3, Fm>" } else if is_n { "X<2>" } else if matches!(c.flavour, Flavour::GenericFm | Flavour::AssocFm) { "X<Fm>" } else { "X" };
     let is_int = c.flavour == Flavour::WrapI8;
     let mut s = String::new();
     s.push_str("use derive_ex::{derive_ex, Ex};\nuse dxrt::{Fm, take_log, take_log_str};\n");
@@ -190,6 +198,9 @@ fn build_inner(c: &Case, tier: &str) -> XCase {
     }
     if c.extra == 2 {
         s.push_str("pub trait Keep {}\nimpl Keep for Option<X> {}\n");
+    }
+    if c.extra == 7 {
+        s.push_str("pub trait Scale<W> {}\nimpl Scale<X<Fm>> for Fm {}\n");
     }
     if c.extra == 1 {
         // the field type reaches the definition as an `ident` fragment of the macro call
@@ -200,11 +211,11 @@ fn build_inner(c: &Case, tier: &str) -> XCase {
     // mk(k): operand value k
     s.push_str("fn mk(k: usize) -> S {\n    match k {\n");
     for k in 0..3 {
-        let args: Vec<String> = (0..n).map(|fi| if is_int { format!("::core::num::Wrapping({}i8)", int_val(k, fi)) } else { format!("Fm::new({:?})", fm_val(k, fi)) }).collect();
+        let args: Vec<String> = (0..n).map(|fi| if is_int { format!("::core::num::Wrapping({}i8)", int_val(k, fi)) } else if is_n { format!("::dxrt::FmN(Fm::new({:?}))", fm_val(k, fi)) } else { format!("Fm::new({:?})", fm_val(k, fi)) }).collect();
         s.push_str(&format!("        {k} => {},\n", with_tag(sh.ctor(0, &args))));
     }
     s.push_str("        _ => unreachable!(),\n    }\n}\n");
-    let parts: Vec<String> = (0..n).map(|fi| if is_int { format!("x.{}.0.to_string()", sh.member(0, fi)) } else { format!("x.{}.0.clone()", sh.member(0, fi)) }).collect();
+    let parts: Vec<String> = (0..n).map(|fi| if is_int { format!("x.{}.0.to_string()", sh.member(0, fi)) } else if is_n { format!("x.{}.0.0.clone()", sh.member(0, fi)) } else { format!("x.{}.0.clone()", sh.member(0, fi)) }).collect();
     s.push_str(&format!("fn view(x: &S) -> String {{ let v: Vec<String> = vec![{}]; v.join(\",\") }}\n", parts.join(", ")));
     s.push_str("pub fn run() -> String {\n    let mut out = String::new();\n    for i in 0..3usize { for j in 0..3usize {\n");
     let mut exp = String::new();
@@ -280,9 +291,9 @@ fn build_inner(c: &Case, tier: &str) -> XCase {
     atoms.insert(format!("body={}", sh.describe()));
     atoms.insert(format!("raw={}", c.raw));
     atoms.insert(format!("stacked={}", c.stacked));
-    atoms.insert(format!("extra={}", ["none", "macro_rules-generated", "where-nested-Self", "last-field-Tag<Self>", "lifetime-'a-and-Tag<&'a T>", "const-parameter-declared-before-the-type-parameter"][c.extra]));
+    atoms.insert(format!("extra={}", ["none", "macro_rules-generated", "where-nested-Self", "last-field-Tag<Self>", "lifetime-'a-and-Tag<&'a T>", "const-parameter-declared-before-the-type-parameter", "field-type-mentions-only-a-const-parameter", "Self-in-an-inline-parameter-bound"][c.extra]));
     XCase {
-        text: format!("{} {}{}{} {}", c.entry.name(), if c.stacked { "stacked " } else { "" }, ["", "macro_rules-generated ", "", "", "", ""][c.extra], tr, item.print()),
+        text: format!("{} {}{}{} {}", c.entry.name(), ["", "stacked ", "stacked-qualified ", "stacked-absolute "][c.stacked], ["", "macro_rules-generated ", "", "", "", "", "", ""][c.extra], tr, item.print()),
         code: s,
         expected: exp,
         atoms,
